@@ -164,3 +164,21 @@ def code_tokens(fs, lines):
         if text.startswith("x_"):
             out.add(text.rstrip(";"))
     return out
+
+
+def untraced():
+    """context manager: leave CrossHair's tracer while code runs on values that are already concrete (the symbolic
+    bits were forked on before); a no-op outside CrossHair"""
+    import contextlib
+
+    try:
+        from crosshair.tracers import NoTracing, is_tracing
+
+        if is_tracing():
+            return NoTracing()
+    except Exception:
+        pass
+    return contextlib.nullcontext()
+
+
+PERMS3 = [(0, 1, 2), (0, 2, 1), (1, 0, 2), (1, 2, 0), (2, 0, 1), (2, 1, 0)]
